@@ -1,34 +1,378 @@
-import FlexiVerif.Lemmas.Spec
+import FlexiVerif.Lemmas.SpecParse
+import FlexiVerif.Props.C02
 /-
-  C17 — Specification text forms round-trip; parsing reports exactly the malformed parts.
-  (interim file: the round-trip theorems are being added)
+  C17 — Specification texts: `Display` and the TOML form parse back to the same specification;
+  errors of `parse` are reported exactly.
+
+  Property theorems only; helper lemmas live in `Lemmas/Text.lean` and `Lemmas/SpecParse.lean`.
 -/
 namespace FV.C17
 open FV FV.Spec
 
-/-- more than one '/' : error, and nothing at all is salvaged -/
+/-- The property's quantifier: specifications buildable from Rust-path-like module names.
+    `fs` = named filters (sorted by descending byte length, as `level_sort` leaves them) followed
+    by at most one default. Names need not be distinct, may be level words, prefixes of each
+    other, non-ASCII. (`cleanChar`, `CleanName`: `Lemmas/SpecParse.lean`.) -/
+def WFSpec (fs : List MF) : Prop :=
+  ∃ named dflt, fs = named ++ dflt ∧
+    (∀ m ∈ named, ∃ n, m.name = some n ∧ CleanName n) ∧
+    (dflt = [] ∨ ∃ l, dflt = [⟨none, l⟩]) ∧
+    Sorted fs ∧ (∀ m ∈ fs, m.lvl ≤ 5)
+
+/-- **Display round trip.** Parsing the `Display` text of a specification gives back exactly the
+    same filter list, verdict Ok, no regex. -/
+theorem display_roundtrip (fs : List MF) (h : WFSpec fs) (rxok : Bool) :
+    parse (display fs) rxok = ⟨true, fs, none⟩ := by
+  obtain ⟨named, dflt, rfl, hnamed, hd, hs, hl⟩ := h
+  have hall : AllNamed named := fun m hm => ⟨hnamed m hm, hl m (by simp [hm])⟩
+  have hsn : Sorted named := Sorted.left hs
+  rcases hd with rfl | ⟨l, rfl⟩
+  · -- no default
+    rw [List.append_nil] at hs hl ⊢
+    cases named with
+    | nil => cases rxok <;> decide
+    | cons m ms =>
+      obtain ⟨n, hn, hc⟩ := hnamed m (by simp)
+      have hdisp : display (m :: ms) = displayNamed false (m :: ms) := by
+        unfold display
+        split
+        · rename_i l hlast
+          have hmem := List.mem_of_getLast? hlast
+          obtain ⟨n', hn', -⟩ := hnamed _ hmem
+          simp at hn'
+        · rfl
+      rw [hdisp]
+      have hslash := slash_not_mem_displayNamed false (m :: ms) hall
+      rw [displayNamed_false_cons m ms n hn] at hslash ⊢
+      rw [parse_of_items _ rxok (m :: ms) hslash, levelSort_of_sorted _ hs]
+      rw [items_displayNamed _ (comma_not_mem_partText n m.lvl hc) ms hall.tail,
+        parsePart_partText n m.lvl hc (hl m (by simp))]
+      have : m = ⟨some n, m.lvl⟩ := by cases m; simp_all
+      rw [← this]; rfl
+  · -- with default
+    have hl5 : l ≤ 5 := hl ⟨none, l⟩ (by simp)
+    have hdisp : display (named ++ [⟨none, l⟩]) = levelWord l ++ displayNamed true named := by
+      unfold display
+      simp [displayNamed_append_default]
+    rw [hdisp]
+    have hslash : '/' ∉ levelWord l ++ displayNamed true named := by
+      have h1 := slash_not_mem_levelWord l
+      have h2 := slash_not_mem_displayNamed true named hall
+      simp [h1, h2]
+    rw [parse_of_items _ rxok (⟨none, l⟩ :: named) hslash]
+    · rw [levelSort_default_cons l named hsn]
+      intro m hm
+      obtain ⟨n, hn, hc⟩ := hnamed m hm
+      exact nlen_pos_of_named m n hn hc.1
+    · rw [items_displayNamed _ (comma_not_mem_levelWord l) named hall, parsePart_levelWord l hl5]
+      rfl
+
+/-- … hence identical decisions -/
+theorem display_roundtrip_decides (fs : List MF) (h : WFSpec fs) (rxok : Bool) (lvl : Nat)
+    (t : List Char) :
+    (parse (display fs) rxok).ok = true ∧
+      enabled (parse (display fs) rxok).filters lvl t = enabled fs lvl t := by
+  rw [display_roundtrip fs h rxok]
+  exact ⟨rfl, rfl⟩
+
+/-- **TOML round trip.** Reading back the written document gives a sorted enumeration of the same
+    filter set, hence identical decisions. (`C02.WF`: every module named at most once, at most one
+    default.) -/
+theorem toml_roundtrip (fs : List MF) (h : WFSpec fs) (hd : C02.WF fs) :
+    ∃ fs', fromToml (toToml fs) = some fs' ∧ fs'.Perm fs ∧ Sorted fs' ∧
+      ∀ lvl t, enabled fs' lvl t = enabled fs lvl t := by
+  obtain ⟨named, dflt, rfl, hnamed, hdf, hs, hl⟩ := h
+  have hall : AllNamed named := fun m hm => ⟨hnamed m hm, hl m (by simp [hm])⟩
+  -- the document and its reading, uniformly in the optional default `g`
+  have key : ∃ g : Option Nat, dflt = (g.map (fun l => (⟨none, l⟩ : MF))).toList ∧
+      (∀ l, g = some l → l ≤ 5) ∧ toToml (named ++ dflt) = ⟨g.map levelWord, named.map encKV⟩ := by
+    rcases hdf with rfl | ⟨l, rfl⟩
+    · exact ⟨none, rfl, by simp, by rw [List.append_nil]; exact toToml_no_default named hall⟩
+    · refine ⟨some l, rfl, ?_, toToml_default named l hall⟩
+      intro l' hl'
+      cases hl'
+      exact hl ⟨none, l⟩ (by simp)
+  obtain ⟨g, rfl, hg, hdoc⟩ := key
+  obtain ⟨X, hX, hfrom⟩ := fromToml_named named hall g hg
+  refine ⟨_, by rw [hdoc]; exact hfrom, ?_, levelSort_sorted _, ?_⟩
+  · exact (levelSort_perm _).trans ((List.Perm.append_left _ hX).trans List.perm_append_comm)
+  · intro lvl t
+    have hp : (levelSort ((g.map (fun l => (⟨none, l⟩ : MF))).toList ++ X)).Perm
+        (named ++ (g.map (fun l => (⟨none, l⟩ : MF))).toList) :=
+      (levelSort_perm _).trans ((List.Perm.append_left _ hX).trans List.perm_append_comm)
+    rw [Bool.eq_iff_iff,
+      C02.enabled_longest_prefix _ hd _ hp (levelSort_sorted _) lvl t,
+      C02.enabled_longest_prefix _ hd _ (List.Perm.refl _) hs lvl t]
+
+/-! ### Error reporting is exact -/
+
+/-- more than one `/`: error, and nothing at all is salvaged -/
 theorem parse_too_many_slashes (s : List Char) (rxok : Bool) (h : (splitOn '/' s).length ≥ 3) :
     parse s rxok = ⟨false, [], none⟩ := by
   unfold parse
   split
-  · rename_i he; simp [he] at h
-  · rename_i mods rest he
-    have : rest.length ≥ 2 := by simp [he] at h; omega
+  · rename_i heq
+    exact absurd heq (splitOn_ne_nil _ _)
+  · rename_i mods rest heq
+    rw [heq] at h
+    have : rest.length ≥ 2 := by simp at h; omega
     simp [this]
 
-/-- at most one '/' : verdict and salvaged spec are exactly determined by the parts -/
+/-- at most one `/`: verdict and salvaged specification are exactly determined by the parts -/
 theorem parse_exact (s : List Char) (rxok : Bool) (mods : List Char) (rest : List (List Char))
     (hs : splitOn '/' s = mods :: rest) (hr : rest.length ≤ 1) :
-    (parse s rxok).filters = levelSort (((splitOn ',' mods).map parsePart).filterMap Item.filter?) ∧
-    ((parse s rxok).ok = false ↔
-      (((splitOn ',' mods).map parsePart).any Item.isErr = true ∨ (rest ≠ [] ∧ rxok = false))) := by
+    let items := (splitOn ',' mods).map parsePart
+    (parse s rxok).filters = levelSort (items.filterMap Item.filter?) ∧
+    ((parse s rxok).ok = false ↔ (items.any Item.isErr = true ∨ (rest ≠ [] ∧ rxok = false))) := by
+  intro items
+  have hlen : ¬ rest.length ≥ 2 := by omega
   unfold parse
   rw [hs]
-  have : ¬ rest.length ≥ 2 := by omega
-  simp only [this, if_false]
+  simp only [hlen, if_false]
+  cases rest with
+  | nil => simp [items]
+  | cons r rs =>
+    cases rxok <;> simp [items]
+
+/-- the regex part is attached exactly when it is present and compiles -/
+theorem parse_regex (s : List Char) (rxok : Bool) (mods : List Char) (rest : List (List Char))
+    (hs : splitOn '/' s = mods :: rest) (hr : rest.length ≤ 1) :
+    (parse s rxok).regex = if rxok then rest.head? else none := by
+  have hlen : ¬ rest.length ≥ 2 := by omega
+  unfold parse
+  rw [hs]
+  simp only [hlen, if_false]
   cases rest with
   | nil => simp
-  | cons r rs =>
-    cases rxok <;> simp
+  | cons r rs => cases rxok <;> simp
+
+/-! ### Grammar of one comma-separated part -/
+
+/-- Declarative grammar of one comma-separated part of the module section, on the trimmed text:
+    which texts are accepted, and as what. (`AllWs a`: `a` consists of whitespace only.) -/
+inductive PartSpec : List Char → Item → Prop
+  /-- nothing: skipped -/
+  | empty : PartSpec [] .skip
+  /-- a level word alone: the default -/
+  | level (w : List Char) (l : Nat) :
+      hasWs w = false → parseLevel w = some l → '=' ∉ w → w ≠ [] →
+      PartSpec w (.filter ⟨none, l⟩)
+  /-- any other word alone: that module at `trace` -/
+  | name (n : List Char) :
+      hasWs n = false → parseLevel n = none → '=' ∉ n → n ≠ [] →
+      PartSpec n (.filter ⟨some n, 5⟩)
+  /-- `name =` with optional whitespace around `=` (the name may be empty): `trace` -/
+  | nameEq (n a b : List Char) :
+      hasWs n = false → '=' ∉ n → AllWs a → AllWs b →
+      PartSpec (n ++ a ++ '=' :: b) (.filter ⟨some n, 5⟩)
+  /-- `name = level` with optional whitespace around `=` (the name may be empty) -/
+  | nameLevel (n a b w : List Char) (l : Nat) :
+      hasWs n = false → '=' ∉ n → AllWs a → AllWs b → '=' ∉ w → parseLevel w = some l →
+      PartSpec (n ++ a ++ '=' :: (b ++ w)) (.filter ⟨some n, l⟩)
+
+/-- whatever the grammar accepts, `parsePart` reads as the grammar says -/
+theorem parsePart_sound (s : List Char) (it : Item) (h : PartSpec (trim s) it) :
+    parsePart s = it := by
+  generalize ht : trim s = t at h
+  cases h with
+  | empty => unfold parsePart; simp [ht]
+  | level w l hws hpl heq hne =>
+    have hemp : t.isEmpty = false := by simpa using hne
+    unfold parsePart
+    simp only [ht, hemp, splitOn_of_not_mem _ _ heq, trim_of_hasWs _ hws, hws, hpl]
+    simp
+  | name n hws hpl heq hne =>
+    have hemp : t.isEmpty = false := by simpa using hne
+    unfold parsePart
+    simp only [ht, hemp, splitOn_of_not_mem _ _ heq, trim_of_hasWs _ hws, hws, hpl]
+    simp
+  | nameEq n a b hws heq ha hb =>
+    have hna : '=' ∉ n ++ a := by
+      have := allWs_not_mem a ha '=' isWs_eq_sign
+      simp [heq, this]
+    have hsplit : splitOn '=' (n ++ a ++ '=' :: b) = [n ++ a, b] := by
+      rw [splitOn_append_sep _ _ _ hna,
+        splitOn_of_not_mem _ _ (allWs_not_mem b hb '=' isWs_eq_sign)]
+    have h0 : trim (n ++ a) = n := trim_pad_right n a ha (noEdgeWs_of_hasWs n hws)
+    unfold parsePart
+    simp only [ht, hsplit, h0, trim_allWs b hb, hws]
+    simp
+  | nameLevel n a b w l hws heq ha hb heqw hpl =>
+    have hna : '=' ∉ n ++ a := by
+      have := allWs_not_mem a ha '=' isWs_eq_sign
+      simp [heq, this]
+    have hbw : '=' ∉ b ++ w := by
+      have := allWs_not_mem b hb '=' isWs_eq_sign
+      simp [heqw, this]
+    have hsplit : splitOn '=' (n ++ a ++ '=' :: (b ++ w)) = [n ++ a, b ++ w] := by
+      rw [splitOn_append_sep _ _ _ hna, splitOn_of_not_mem _ _ hbw]
+    have hwws := hasWs_of_parseLevel w l hpl
+    have h0 : trim (n ++ a) = n := trim_pad_right n a ha (noEdgeWs_of_hasWs n hws)
+    have h1 : trim (b ++ w) = w := trim_pad_left b w hb (noEdgeWs_of_hasWs w hwws)
+    have hemp : w.isEmpty = false := by simpa using parseLevel_ne_nil w l hpl
+    unfold parsePart
+    simp only [ht, hsplit, h0, h1, hemp, hws, trim_of_hasWs _ hwws, trim_of_hasWs _ hws, hpl]
+    simp
+
+/-- conversely: whatever `parsePart` accepts (does not report as error) is in the grammar -/
+theorem parsePart_complete (s : List Char) (it : Item) (h : parsePart s = it) (hne : it ≠ .err) :
+    PartSpec (trim s) it := by
+  have hedge := noEdgeWs_trim s
+  unfold parsePart at h
+  simp only at h
+  generalize trim s = t at hedge h ⊢
+  split at h
+  · -- empty
+    rename_i hemp
+    have : t = [] := by simpa using hemp
+    subst this; subst h; exact .empty
+  · rename_i hemp
+    have htne : t ≠ [] := by simpa using hemp
+    split at h
+    · -- no `=`
+      rename_i p0 hsp
+      obtain ⟨rfl, heq⟩ := splitOn_eq_singleton _ _ _ hsp
+      simp only [trim_of_noEdgeWs _ hedge] at h
+      split at h
+      · exact absurd h.symm hne
+      · rename_i hws
+        have hws' : hasWs p0 = false := by simpa using hws
+        split at h
+        · rename_i l hpl
+          subst h; exact .level _ _ hws' hpl heq htne
+        · rename_i hpl
+          subst h; exact .name _ hws' hpl heq htne
+    · -- one `=`
+      rename_i p0 p1 hsp
+      obtain ⟨t', rfl, heq0, hsp'⟩ := splitOn_eq_cons_cons _ _ _ _ _ hsp
+      obtain ⟨rfl, heq1⟩ := splitOn_eq_singleton _ _ _ hsp'
+      obtain ⟨a0, b0, hp0, ha0, hb0, he0⟩ := trim_decomp p0
+      obtain ⟨a1, b1, hp1, ha1, hb1, he1⟩ := trim_decomp p1
+      generalize trim p0 = c0 at *
+      generalize trim p1 = c1 at *
+      subst hp0 hp1
+      -- no whitespace in front of the name: the text is trimmed
+      have ha0nil : a0 = [] := by
+        cases a0 with
+        | nil => rfl
+        | cons c cs =>
+          have h1 := hedge.1 c (by simp)
+          rw [ha0 c (by simp)] at h1
+          exact absurd h1 (by simp)
+      subst ha0nil
+      have heqc0 : '=' ∉ c0 := fun hc => heq0 (by simp [hc])
+      have hrw : [] ++ c0 ++ b0 ++ '=' :: (a1 ++ c1 ++ b1) = c0 ++ b0 ++ '=' :: (a1 ++ c1 ++ b1) := by
+        simp
+      rw [hrw] at hedge ⊢
+      split at h
+      · -- nothing after `=`
+        rename_i hc1
+        have : c1 = [] := by simpa using hc1
+        subst this
+        split at h
+        · exact absurd h.symm hne
+        · rename_i hws
+          have hws' : hasWs c0 = false := by simpa using hws
+          subst h
+          refine .nameEq c0 b0 _ hws' heqc0 hb0 ?_
+          intro c hc
+          simp only [List.append_nil, List.mem_append] at hc
+          rcases hc with hc | hc
+          · exact ha1 c hc
+          · exact hb1 c hc
+      · rename_i hc1
+        have hc1ne : c1 ≠ [] := by simpa using hc1
+        -- no whitespace behind the level: the text is trimmed
+        have hb1nil : b1 = [] := by
+          cases hlast : b1.getLast? with
+          | none => simpa using hlast
+          | some x =>
+            have hx : isWs x = true := hb1 x (List.mem_of_getLast? hlast)
+            have hb1ne : b1 ≠ [] := by rintro rfl; simp at hlast
+            have h2 : (c0 ++ b0 ++ '=' :: (a1 ++ c1 ++ b1)).getLast? = some x := by
+              have : c0 ++ b0 ++ '=' :: (a1 ++ c1 ++ b1) = (c0 ++ b0 ++ '=' :: (a1 ++ c1)) ++ b1 := by
+                simp
+              rw [this, List.getLast?_append, hlast]; rfl
+            have h1 := hedge.2 x h2
+            rw [hx] at h1
+            exact absurd h1 (by simp)
+        subst hb1nil
+        split at h
+        · exact absurd h.symm hne
+        · rename_i hws
+          have hws' : hasWs c0 = false := by simpa using hws
+          simp only [trim_of_noEdgeWs _ he1, trim_of_noEdgeWs _ he0] at h
+          split at h
+          · rename_i l hpl
+            subst h
+            have heqc1 : '=' ∉ c1 := fun hc => heq1 (by simp [hc])
+            rw [List.append_nil]
+            exact .nameLevel c0 b0 a1 c1 l hws' heqc0 hb0 ha1 heqc1 hpl
+          · exact absurd h.symm hne
+    · exact absurd h.symm hne
+
+/-- the grammar never produces the error item -/
+theorem partSpec_ne_err (t : List Char) (it : Item) (h : PartSpec t it) : it ≠ .err := by
+  cases h <;> simp
+
+/-- the error verdict of one part, declaratively: the trimmed text is not in the grammar -/
+theorem parsePart_err_iff (s : List Char) :
+    parsePart s = .err ↔ ¬ ∃ it, PartSpec (trim s) it := by
+  constructor
+  · rintro h ⟨it, hp⟩
+    rw [parsePart_sound s it hp] at h
+    exact partSpec_ne_err _ _ hp h
+  · intro h
+    cases hp : parsePart s with
+    | err => rfl
+    | filter m => exact absurd ⟨_, parsePart_complete s _ hp (by simp)⟩ h
+    | skip => exact absurd ⟨_, parsePart_complete s _ hp (by simp)⟩ h
+
+/-- on trimmed texts the grammar is functional -/
+theorem partSpec_functional (s : List Char) (it it' : Item)
+    (h : PartSpec (trim s) it) (h' : PartSpec (trim s) it') : it = it' := by
+  rw [← parsePart_sound s it h, ← parsePart_sound s it' h']
+
+/-! ### non-vacuity -/
+
+/-- a name that is a level word, a non-ASCII name (10 bytes, 8 characters), `off`, a default -/
+example : WFSpec [⟨some "größe::x".toList, 4⟩, ⟨some "info".toList, 0⟩, ⟨none, 3⟩] := by
+  refine ⟨[⟨some "größe::x".toList, 4⟩, ⟨some "info".toList, 0⟩], [⟨none, 3⟩], rfl, ?_, ?_, ?_, ?_⟩
+  · intro m hm
+    simp only [List.mem_cons, List.not_mem_nil, or_false] at hm
+    rcases hm with rfl | rfl
+    · exact ⟨_, rfl, by decide⟩
+    · exact ⟨_, rfl, by decide⟩
+  · exact Or.inr ⟨3, rfl⟩
+  · unfold Sorted; decide
+  · decide
+
+example : display [⟨some "größe::x".toList, 4⟩, ⟨some "info".toList, 0⟩, ⟨none, 3⟩] =
+    "info, größe::x = debug, info = off".toList := by decide
+
+example : parse (display [⟨some "größe::x".toList, 4⟩, ⟨some "info".toList, 0⟩, ⟨none, 3⟩]) true =
+    ⟨true, [⟨some "größe::x".toList, 4⟩, ⟨some "info".toList, 0⟩, ⟨none, 3⟩], none⟩ := by decide
+
+/-- names that are prefixes of each other, no default -/
+example : parse (display [⟨some "a::b".toList, 1⟩, ⟨some "a".toList, 5⟩]) false =
+    ⟨true, [⟨some "a::b".toList, 1⟩, ⟨some "a".toList, 5⟩], none⟩ := by decide
+
+example : fromToml (toToml [⟨some "größe::x".toList, 4⟩, ⟨some "info".toList, 0⟩, ⟨none, 3⟩]) =
+    some [⟨some "größe::x".toList, 4⟩, ⟨some "info".toList, 0⟩, ⟨none, 3⟩] := by decide
+
+/-- errors are reported and the rest is salvaged -/
+example : parse "info, a b, c = debug, d = e = f".toList true =
+    ⟨false, [⟨some "c".toList, 4⟩, ⟨none, 3⟩], none⟩ := by decide
+example : parse "info/a/b".toList true = ⟨false, [], none⟩ := by decide
+
+/-- the grammar accepts upper-case levels and blanks around `=` -/
+example : PartSpec (trim "  a::b =  Debug ".toList) (.filter ⟨some "a::b".toList, 4⟩) := by
+  have : trim "  a::b =  Debug ".toList =
+      "a::b".toList ++ " ".toList ++ '=' :: ("  ".toList ++ "Debug".toList) := by decide
+  rw [this]
+  exact .nameLevel _ _ _ _ 4 (by decide) (by decide) (by decide) (by decide) (by decide) (by decide)
+example : parsePart "a b".toList = .err := by decide
+example : parsePart "a = b = c".toList = .err := by decide
+example : parsePart "a = nolevel".toList = .err := by decide
 
 end FV.C17
